@@ -366,7 +366,7 @@ def check_self_signatures(rep, prog):
     for primary, owner, kind in ((True, '%s.fingerprint.keyid' % me, 'SignatureType.DirectlyOnKey'),
                                  (False, '%s._parent.fingerprint.keyid' % me, 'SignatureType.Subkey_Binding')):
         scen = 'primary=%s' % primary
-        sc = Scenario(bind={'%s.is_primary' % me: Const(primary)}, inline=noinline, tables=True)
+        sc = Scenario(bind={'%s.is_primary' % me: Const(primary)}, inline=noinline, extended=True)
         outs = Interp(prog, sc).run(sf)
         ys = [render(y) for s in outs for y in s.yields]
         m = re.match(r'^\*?EACH\((\$[\d.]+) in (.+?)(?: if (.+))?;(?:(\$[\d.]+)|ALT\((\$[\d.]+) \| \)|ALT\( \| (\$[\d.]+)\))\)$', ys[0]) \
@@ -398,7 +398,7 @@ def check_self_signatures(rep, prog):
             # element and read the truth table: the element is yielded iff all three relations hold
             el = Sym('SIG', nonnull=True)
             want = [(w[0], frozenset(x.replace(v, 'SIG') for x in w[1])) if w[0] == 'eq' else (w[0], w[1].replace(v, 'SIG')) for w in want]
-            outs = Interp(prog, Scenario(bind={'%s.is_primary' % me: Const(primary)}, unroll={coll: [el]}, inline=noinline, tables=True)).run(sf)
+            outs = Interp(prog, Scenario(bind={'%s.is_primary' % me: Const(primary)}, unroll={coll: [el]}, inline=noinline, extended=True)).run(sf)
             ok, found = True, None
             for assign in keyaction.assignments(outs):
                 hit = [s for s in outs if keyaction.consistent(s, assign)]
